@@ -321,6 +321,8 @@ impl ToInternedString for LiteralKind {
                     crate::escape_string_units(interner.resolve_expect(st).utf16(), '"')
                 )
             }
+            // `1e400` is read as infinity; Rust would print it as `inf`, which is an identifier.
+            Self::Num(num) if num.is_infinite() => "1e999".to_owned(),
             Self::Num(num) => num.to_string(),
             Self::Int(num) => num.to_string(),
             Self::BigInt(ref num) => format!("{num}n"),
